@@ -138,6 +138,9 @@ func (c *c19Ctx) genScenario(seed uint64, progs []*c19Prog) *Scenario {
 		s.Bulk, s.AsciiHead, s.Light = 0, 0, true
 	}
 	s.CRLF = r.Chance(1, 10) && s.RawSrc == ""
+	if !s.CRLF && s.RawSrc == "" && r.Chance(1, 12) {
+		s.MixedEOL = r.U64() | 1
+	}
 	if r.Chance(1, 12) && s.RawSrc == "" {
 		s.NoFinalNL = true
 	}
